@@ -12,6 +12,7 @@ RULE = ('Hypothesis-generated scan circuits (data inputs, a clock that reaches o
         'random places (directly after scan-in, before scan-out, doubled) x cell names "top.ff.SI" or plain x signal groups _pi/_po in random port '
         'order plus distractor groups x 2..5 patterns in stuck-at style (load_unload + *_capture) or launch-on-capture style (load_unload + '
         '*_launch + *_capture, with and without P on the clock), values 0 1 N / L H X, line breaks inside value strings, Ann/Macro/W/C noise. '
+        'The statements of a ScanChain block, the parameters of a Call and the top-level blocks come in generated order, optional ScanChain statements are left out. '
         'Oracle: expected tests / responses / tests_loc arrays computed from the generator model (row order = s_nodes; character j of a load/unload '
         'string belongs to the j-th cell counted from scan-out; load value XOR parity of markers between scan-in and the cell, unload value XOR '
         'parity between the cell and scan-out; LoC: own 4-valued evaluation of the next state), for any call order, repeated calls, pass-through filters, and for a second circuit (other port / flip-flop order) served by the same parse result. X and - compared as one class. non-trivial: a chain '
@@ -113,8 +114,16 @@ def render(case):
             cells += ['!'] * ch['marks'][k]
             cells.append(f'"top.s{cidx}.SI"' if ch['dotted'] else f'"s{cidx}"')
         cells += ['!'] * ch['marks'][len(ch['cells'])]
-        sc.append(f'   ScanChain "{j + 1}" {{\n      ScanLength {len(ch["cells"])};\n      ScanIn "{ch["si"]}";\n      ScanOut "{ch["so"]}";\n'
-                  f'      ScanInversion 0;\n      ScanCells {" ".join(cells)};\n      ScanMasterClock "i{clk}";\n   }}')
+        stmts = [f'ScanIn "{ch["si"]}";', f'ScanOut "{ch["so"]}";', f'ScanCells {" ".join(cells)};']
+        opt = [f'ScanLength {len(ch["cells"])};', 'ScanInversion 0;', f'ScanMasterClock "i{clk}";']
+        sel = (case['brk'] >> (3 * j)) % 8           # the grammar takes the statements of a chain in any order; the last three are optional
+        stmts += [o for b, o in enumerate(opt) if (sel >> b) & 1]
+        order = ((case['brk'] >> j) + 1) * 2654435761 % (1 << 32)
+        if case['brk'] % 5:
+            for i in range(len(stmts) - 1, 0, -1):
+                order, r = divmod(order, i + 1)
+                stmts[i], stmts[r] = stmts[r], stmts[i]
+        sc.append(f'   ScanChain "{j + 1}" {{\n      ' + '\n      '.join(stmts) + '\n   }')
     sc.append('}')
     t.append('\n'.join(sc))
     t.append('PatternBurst "_burst_" {\n   PatList { "_pattern_" { } }\n}')
@@ -129,11 +138,16 @@ def render(case):
         if prev is not None:
             params += [f'      "{ch["so"]}"={val(prev["unloads"][j])};' for j, ch in enumerate(chains)]
         params += [f'      "{ch["si"]}"={val(pat["loads"][j])};' for j, ch in enumerate(chains)]
+        if (case['brk'] >> 3) % 3 == 0:      # parameters of a call in any order
+            params = params[i % len(params):] + params[:i % len(params)]
         p.append(f'   "pattern {i}": Call "load_unload" {{\n' + '\n'.join(params) + ' }')
         pi1, pi2 = pi_strings(pat, clk)
         if pat['style'] == 'sa':
             s2 = ''.join(pi2[k] for k in case['pi_order'])
-            p.append(f'   Call "multiclock_capture" {{\n      "_pi"={val(s2)}; "_po"={val("".join(pat["po"][k] for k in case["po_order"]))}; }}')
+            if (case['brk'] >> 5) % 2:
+                p.append(f'   Call "multiclock_capture" {{\n      "_po"={val("".join(pat["po"][k] for k in case["po_order"]))}; "_pi"={val(s2)}; }}')
+            else:
+                p.append(f'   Call "multiclock_capture" {{\n      "_pi"={val(s2)}; "_po"={val("".join(pat["po"][k] for k in case["po_order"]))}; }}')
         else:
             s1 = ''.join(pi1[k] for k in case['pi_order'])
             s2 = ''.join(pi2[k] for k in case['pi_order'])
@@ -145,6 +159,9 @@ def render(case):
     p.append('   "end 0 unload": Call "load_unload" {\n' + '\n'.join(f'      "{ch["so"]}"={val(prev["unloads"][j])};' for j, ch in enumerate(chains)) + ' }')
     p.append('}')
     t.append('\n'.join(p))
+    if (case['brk'] >> 7) % 4 == 0:          # top-level blocks in another order (the pattern block before the scan structures, ...)
+        k = 1 + (case['brk'] >> 9) % (len(t) - 1)
+        t = t[:1] + t[k:] + t[1:k]
     return '\n'.join(t) + '\n'
 
 
